@@ -352,6 +352,23 @@ func phHashes(phs []tmconsensus.ProposedHeader) string {
 	return TL(xs)
 }
 
+// 1 when the validator list and public keys are the ones the two hashes were computed from
+func (w *world) trConsistent(vs tmconsensus.ValidatorSet) string {
+	if len(vs.Validators) == 0 && len(vs.PubKeys) == 0 && len(vs.PubKeyHash) == 0 && len(vs.VotePowerHash) == 0 {
+		return TN(1)
+	}
+	want, err := tmconsensus.NewValidatorSet(vs.Validators, w.hs)
+	if err != nil || !bytes.Equal(want.PubKeyHash, vs.PubKeyHash) || !bytes.Equal(want.VotePowerHash, vs.VotePowerHash) || len(want.PubKeys) != len(vs.PubKeys) {
+		return TN(0)
+	}
+	for i := range want.PubKeys {
+		if !want.PubKeys[i].Equal(vs.PubKeys[i]) {
+			return TN(0)
+		}
+	}
+	return TN(1)
+}
+
 func (w *world) trKeys(vs tmconsensus.ValidatorSet) string {
 	xs := make([]string, len(vs.Validators))
 	for i, v := range vs.Validators {
@@ -379,7 +396,7 @@ func (w *world) trView(v *tmconsensus.VersionedRoundView) string {
 		TB([]byte(s.MostVotedPrevoteHash)), TB([]byte(s.MostVotedPrecommitHash))})
 	return TL([]string{TN(v.Height), TN(uint64(v.Round)), TB(v.ValidatorSet.PubKeyHash), TB(v.ValidatorSet.VotePowerHash),
 		w.trKeys(v.ValidatorSet), trVPows(v.ValidatorSet),
-		phHashes(v.ProposedHeaders), w.trPmap(v.PrevoteProofs), w.trPmap(v.PrecommitProofs), sum, w.trCProof(v.PrevCommitProof)})
+		phHashes(v.ProposedHeaders), w.trPmap(v.PrevoteProofs), w.trPmap(v.PrecommitProofs), sum, w.trCProof(v.PrevCommitProof), w.trConsistent(v.ValidatorSet)})
 }
 
 // ---------- one case ----------
@@ -431,7 +448,7 @@ func (rn *runner) observe() string {
 		}
 		nv := chd.Header.NextValidatorSet
 		hdrs = append(hdrs, TL([]string{TN(h), TB(chd.Header.Hash), TB(chd.Header.PrevBlockHash),
-			TB(nv.PubKeyHash), TB(nv.VotePowerHash), rn.w.trKeys(nv), trVPows(nv), rn.w.trCProof(chd.Proof)}))
+			TB(nv.PubKeyHash), TB(nv.VotePowerHash), rn.w.trKeys(nv), trVPows(nv), rn.w.trCProof(chd.Proof), rn.w.trConsistent(nv)}))
 	}
 	keys := make([]hr, 0, len(rn.touched))
 	for k := range rn.touched {
@@ -895,8 +912,13 @@ func (rn *runner) proposal(v, c *tmconsensus.VersionedRoundView, H uint64, R uin
 	} else {
 		rn.valsAt[h] = saveVals
 	}
-	if variant == 11 { // wrong predecessor
+	if variant == 11 { // wrong predecessor, backed by a (Byzantine) certificate for that other block
 		hd.PrevBlockHash = []byte("not-the-committed-block")
+		if h > rn.initH {
+			vsP := rn.valsFor(h - 1)
+			hd.PrevCommitProof = tmconsensus.CommitProof{Round: pcp.Round, PubKeyHash: string(vsP.vs.PubKeyHash),
+				Proofs: map[string][]gcrypto.SparseSignature{"not-the-committed-block": rn.mkSigs(vsP, kindPrecommit, h-1, pcp.Round, "not-the-committed-block", allIdx(len(vsP.keys)), 0)}}
+		}
 		hash, _ := w.hs.Block(hd)
 		hd.Hash = hash
 	}
@@ -955,6 +977,14 @@ func (rn *runner) proposal(v, c *tmconsensus.VersionedRoundView, H uint64, R uin
 		if _, ok := rn.valsAt[h+1]; !ok {
 			rn.valsAt[h+1] = next
 		}
+	}
+	// an odd proposal that was nevertheless accepted: try to get it committed straight away,
+	// so that whatever it smuggled in becomes visible in the committed chain
+	if variant != 0 && len(rn.knownPHs[hr{h, r}]) > before && w.r.chance(2, 3) {
+		vsH := rn.valsFor(h)
+		rn.stats["odd_ph_commit_attempt"]++
+		rn.doVotes(kindPrecommit, h, r, string(vsH.vs.PubKeyHash), []voteEntry{{string(hd.Hash),
+			rn.mkSigs(vsH, kindPrecommit, h, r, string(hd.Hash), allIdx(len(vsH.keys)), 0)}})
 	}
 	// duplicate delivery now and then
 	if w.r.chance(1, 6) {
